@@ -213,6 +213,9 @@ func init() {
 
 	// ---- time ----
 	reg("time.Now", func(fr *frame, args []Value) Value { return fr.e.timeValue() })
+	reg("time.runtimeNano", func(fr *frame, args []Value) Value {
+		return fr.e.tt.BV(64, uint64(fr.e.sched.now+1))
+	})
 	reg("time.Sleep", func(fr *frame, args []Value) Value {
 		e := fr.e
 		d := e.durationArg(args[0], "Sleep duration")
